@@ -100,6 +100,12 @@ class DAG:
             if math.isnan(x) or math.isinf(x):
                 raise EngineError(f'non-finite constant {x}')
             fr = Fraction(x)
+            if fr.denominator > 1024:
+                # a double that is the nearest float of a small rational p/q (q <= 1000) is read as
+                # that rational (1/3, 5/6, ...): the identities are decided over the reals
+                snap = fr.limit_denominator(1000)
+                if float(snap) == x:
+                    fr = snap
         else:
             fr = Fraction(x)
         if fr == 0:
